@@ -219,21 +219,28 @@ def signer_faults(n_art=4):
             calls = [0]
             real = S.serialize_and_sign
 
-            def failing(obj, key, _i=i):
-                calls[0] += 1
-                if calls[0] - 1 == _i:
-                    raise OSError("signer failed at artifact %d" % _i)
-                return real(obj, key)
-            S.serialize_and_sign = failing
-            try:
-                S.sign_all_in_repodata(fn, KEYHEX)
-                out.append({"what": "signer failure at artifact %d was swallowed" % i})
-            except OSError:
-                pass
-            finally:
-                S.serialize_and_sign = real
-            if open(fn, "rb").read() != orig:
-                out.append({"what": "signer failed at artifact %d of %d and the file was changed (partially signed?)" % (i, n_art)})
+            for exc in (OSError, KeyError, IndexError, TypeError, ValueError, AttributeError, StopIteration, RuntimeError, LookupError, AssertionError):
+                with open(fn, "w") as f:
+                    json.dump(REPODATA, f)
+                calls = [0]
+
+                def failing(obj, key, _i=i, _exc=exc):
+                    calls[0] += 1
+                    if calls[0] - 1 == _i:
+                        raise _exc("signer failed at artifact %d" % _i)
+                    return real(obj, key)
+                S.serialize_and_sign = failing
+                try:
+                    S.sign_all_in_repodata(fn, KEYHEX)
+                    out.append({"what": "signer failure (%s) at artifact %d was swallowed" % (exc.__name__, i)})
+                except exc:
+                    pass
+                except Exception as e:  # noqa
+                    out.append({"what": "signer failure (%s) at artifact %d surfaced as %s" % (exc.__name__, i, type(e).__name__)})
+                finally:
+                    S.serialize_and_sign = real
+                if open(fn, "rb").read() != orig:
+                    out.append({"what": "signer failed (%s) at artifact %d of %d and the file was changed (partially signed?)" % (exc.__name__, i, n_art)})
     finally:
         shutil.rmtree(d, ignore_errors=True)
     return out
